@@ -320,7 +320,9 @@ pub fn rule_zwnj_b<const N: usize, const B: usize, S: Src>(s: &mut S) {
                     j += 1;
                 }
                 let matches = !back_undef && back_ok && !fwd_undef && fwd_ok;
-                pv_cover!(s, matches && (pos >= 2 || pos + 2 < n), "COVER: regular expression matches through a transparent character");
+                if N >= 4 {
+                    pv_cover!(s, matches && (pos >= 2 || pos + 2 < n), "COVER(n4): regular expression matches through a transparent character");
+                }
                 if matches {
                     pv_check!(s, r == Ok(true), "PV: ZWNJ allowed when the joining-type expression matches");
                 } else {
